@@ -17,6 +17,9 @@ structure SFrame where
   ttl : Option TTL := none
   /-- content text (none = no hash) -/
   content : Option String := none
+  /-- would the frame, encoded, read back (serde_json's nesting limit; computed by the glue from the
+      meta's JSON text, see XsModel/Json.lean)?  `insert_frame` refuses to store one that would not -/
+  decodable : Bool := true
   deriving Repr, DecidableEq
 
 /-- ids travel in meta as their 25-character text; the model keeps the number and the glue
@@ -58,6 +61,8 @@ structure OutReq where
   /-- `--context`: accepted by the command, overridden by the handler -/
   ctxReq : Option Nat := none
   content : Option String := none
+  /-- its meta nests deeper than a frame can carry and still be read back -/
+  decodable : Bool := true
   deriving Repr
 
 inductive Ret where
@@ -78,7 +83,7 @@ def stamp (m : Option (List (String × String))) (hid fid : Nat) : Option (List 
 /-- an output request becomes a frame handed to `store.append` (id assigned there) -/
 def emit (cfg : HCfg) (trigger : SFrame) (o : OutReq) : SFrame :=
   { topic := o.topic, ctx := cfg.ctx, id := 0, mdata := stamp o.mdata cfg.id trigger.id, ttl := o.ttl,
-    content := o.content }
+    content := o.content, decodable := o.decodable }
 
 def returnFrame (cfg : HCfg) (trigger : SFrame) (json : String) : SFrame :=
   { topic := cfg.name ++ cfg.suffix, ctx := cfg.ctx, id := 0, mdata := stamp none cfg.id trigger.id,
@@ -119,10 +124,12 @@ def retFrames (cfg : HCfg) (trigger : SFrame) : Ret → List SFrame
 def sXsContext : String := String.ofList ['x', 's', '.', 'c', 'o', 'n', 't', 'e', 'x', 't']
 
 /-- `Store::check_append` for an output frame (already forced into the handler's context, which
-    is registered - the handler was handed frames of it): no NUL in the topic, and `xs.context`
-    only from the zero context -/
+    is registered - the handler was handed frames of it): no NUL in the topic, `xs.context`
+    only from the zero context, and - unless it is ephemeral and never stored - a frame that
+    reads back once encoded -/
 def storable (f : SFrame) : Bool :=
-  !f.topic.toList.contains (Char.ofNat 0) && (f.topic != sXsContext || f.ctx = 0)
+  !f.topic.toList.contains (Char.ofNat 0) && (f.topic != sXsContext || f.ctx = 0) &&
+    (f.decodable || f.ttl = some .ephemeral)
 
 /-- `Handler::serve`, one frame: new state, closure environment, frames emitted (in order),
     was the closure invoked. `σ` is the engine state that `merge_env` carries from one call
